@@ -23,6 +23,8 @@ ASSUMPTIONS = [
     "ptrace is permitted (coverage.ptrace_permitted); data the kernel accepted and lost later, and fsync semantics, are outside",
     "which checks the tree performs (pinned / repaired by proposed_fixes/D2_output_errors.diff) is inferred from the runs: the "
     "model must agree with the binary on EVERY case under one of the two check vectors",
+    "files-processed: what a file gives when read (warnings when opened, embedded files, a stream that fails to decode) is known from how it was built and is "
+    "the input of the job model; the part also checks that the WARNING lines printed are the ones the files were built to give",
 ]
 
 SHIM = os.path.join(common.BUILD, "shim_fault.so")
@@ -812,6 +814,12 @@ def files_processed_jobs(inputs):
     job("attach-with-on-att-main", main="01", attach=("11",))
     job("attach-clean-without", attach=("00",))
     job("attach-clean-with", attach=("01",))
+    # several files in one role: the damaged one first, last, in the middle
+    for fs in (("00", "10"), ("10", "00"), ("00", "10", "00")):
+        job("overlay:" + "/".join(fs), uo=fs)
+        job("underlay:" + "/".join(fs), uo=fs, uokind="--underlay")
+        job("pages:" + "/".join(fs), pages=fs)
+        job("pages-empty:" + "/".join(fs), main=None, pages=fs)
     # two roles, one damaged
     job("pages+attach-without", pages=("00",), attach=("10",))
     job("overlay+attach-without", uo=("00",), attach=("10",))
@@ -830,6 +838,14 @@ def files_processed_jobs(inputs):
             job("decode-failure%s%s" % ("/split" if split else "", "/qdf" if decode else ""), late=True, split=split, decode=decode)
     job("decode-failure/qdf/wx0", late=True, decode=True, wx0=True)
     job("decode-failure/qdf+attach-without", late=True, decode=True, attach=("10",))
+    # the same file in the other roles: where such warnings are recorded is not modelled; the clause on the run is judged all the same
+    for name, args in (("pages", [F["00"], "--pages", LATE, "1-z", "--"]), ("pages-self-and", [F["00"], "--pages", ".", LATE, "1-z", "--"]),
+                       ("pages-empty", ["--empty", "--pages", LATE, "1-z", "--"]), ("overlay", [F["00"], "--overlay", LATE, "--from=2", "--"]),
+                       ("underlay", [F["00"], "--underlay", LATE, "--from=2", "--"])):
+        for split in (False, True):
+            jobs.append({"name": "decode-failure-in-%s%s/qdf" % (name, "/split" if split else ""),
+                         "argv": ["--static-id"] + args + ["--qdf"] + (["--split-pages", "out-%d.pdf"] if split else ["out.pdf"]),
+                         "desc": None, "class": ("split-pages+" if split else "") + name.split("-")[0] + "(decode-failure)", "wx0": False})
     return jobs
 
 
@@ -850,13 +866,14 @@ def files_processed_part(chk, runner, wd, inputs):
         shutil.rmtree(rd, ignore_errors=True)
         return rc, se, outs
     impl = common.par_map(one, range(len(jobs)), workers=WORKERS)
-    mout = common.run_lines(runner, ["c10jexit " + j["desc"] for j in jobs])
+    mout = iter(common.run_lines(runner, ["c10jexit " + j["desc"] for j in jobs if j["desc"]]))
+    mout = [next(mout) if j["desc"] else None for j in jobs]
     slines = ["c10jobs %d %d %d" % (rc if rc >= 0 else 255, 1 if b"WARNING: " in se else 0, 1 if j["wx0"] else 0) for j, (rc, se, outs) in zip(jobs, impl)]
     sout = common.run_lines(runner, slines)
     nontriv, diffs, dist = set(), [], {}
     for j, (rc, se, outs), mo, sv in zip(jobs, impl, mout, sout):
-        m_exit, s_exit, reported = (int(x) for x in mo.split(" "))
         wl = b"WARNING: " in se
+        m_exit, s_exit, reported = (int(x) for x in mo.split(" ")) if mo else (rc, None, 1 if wl else 0)
         argv = ["qpdf"] + [os.path.basename(a) if a.startswith(wd) else a.replace(wd + "/", "") for a in j["argv"]]
         key = "%s/exit%d" % (j["class"], rc)
         dist[key] = dist.get(key, 0) + 1
@@ -980,7 +997,10 @@ def run(chk):
                        "fail@k at every fopen/rename/unlink, disk@k (device stays full) on a sample, cap@L = RLIMIT_FSIZE sweep; each run is compared with the "
                        "extracted model on exit status, diagnostic classes, bytes of every output file and the complete sequence of stdio calls with results, and "
                        "the extracted specification c10_obs_ok is evaluated on the binary's run; non-trivial = a run in which at least one output call actually "
-                       "failed at kernel level, distinct by (scenario, input, fault)") % (limit or "all")
+                       "failed at kernel level, distinct by (scenario, input, fault). Part files-processed: 84 jobs without faults - a damaged file (wrong startxref) in "
+                       "every role (main, --pages, --overlay, --underlay, --copy-attachments-from with / without embedded files, --copy-encryption), first / last / between "
+                       "intact files, two roles at once, with --split-pages and --warning-exit-0, and a file with a stream that does not inflate (with / without --qdf, every role): "
+                       "exit status = extracted c10j_exit (Sys/JobWarnModel.v) where the job is in the model's domain, and the extracted c10j_obs_ok on every run") % (limit or "all")
     shutil.rmtree(wd, ignore_errors=True)
 
 
@@ -992,10 +1012,22 @@ def replay(chk, rep):
     build_shim()
     wd = common.workdir("C10-replay")
     inputs = make_inputs(wd, chk.rng, chk.tier, 0)
+    if r.get("part") == "files-processed":
+        j = [x for x in files_processed_jobs(inputs) if x["name"] == r["job"]][0]
+        rd = os.path.join(wd, "replay")
+        os.makedirs(rd)
+        rc, so, se = common.run_qpdf(j["argv"], cwd=rd)
+        print("argv", j["argv"], "\nexit", rc, "\nstderr", se.decode("latin-1")[-800:], "\noutputs", sorted(os.listdir(rd)))
+        return 0
     if r["input"] not in inputs:
         print("input %s is a random input of the thorough tier; rerun the tier with the same VERIF_SEED" % r["input"])
         return 0
-    res = run_binary(os.path.join(wd, "replay"), r["scenario"], inputs[r["input"]], r["fault"], keep=True)
-    print("exit", res.rc, "stderr", res.stderr.decode("latin-1")[-400:], "files", {k: len(v) for k, v in res.files.items()})
+    pre = None
+    if r.get("pre"):
+        orig = open(inputs[r["input"]]["path"], "rb").read()
+        pre = {n: (orig if v == "<same-as-input>" else (bytes.fromhex(v) if isinstance(v, str) else v)) for n, v in r["pre"].items()}
+    res = run_binary(os.path.join(wd, "replay"), r["scenario"], inputs[r["input"]], r["fault"], keep=True, tail_args=r.get("tail", ()), pre=pre)
+    print("argv", res.argv, "initial directory", {n: ("directory" if not isinstance(v, bytes) else "%d bytes md5 %s" % (len(v), md5(v))) for n, v in (pre or {}).items()})
+    print("exit", res.rc, "stderr", res.stderr.decode("latin-1")[-400:], "files", {k: ("directory" if v.startswith(DIRMARK) else "%d bytes md5 %s" % (len(v), md5(v))) for k, v in res.files.items()})
     print(res.log[-1500:])
     return 0
